@@ -33,6 +33,7 @@ var c03Dims = []c03Dim{
 	{"hop-trailer", []string{"no", "yes"}},
 	{"hop-upgrade", []string{"no", "yes"}},
 	{"connection", []string{"close", "close, X-Foo", "X-Foo, X-Bar, close"}},
+	{"connection-second-line", []string{"no", "X-Baz"}},
 	{"accept-encoding", []string{"", "gzip"}},
 	{"req-body", []string{"0", "1", "1024", "65536"}},
 	{"req-chunked", []string{"no", "yes"}},
@@ -179,6 +180,10 @@ func TestVerifC03(t *testing.T) {
 		if cs["repeated-header"] == "yes" {
 			q.hdr = append(q.hdr, [2]string{"X-Rep", "one"}, [2]string{"X-Rep", "two"})
 		}
+		q.hdr = append(q.hdr, [2]string{"X-Baz", "named-by-second-connection-line"})
+		if cs["connection-second-line"] != "no" {
+			q.hdr = append(q.hdr, [2]string{"Connection", "X-Baz"}) // Connection is a list field: it may come in several lines
+		}
 		for dim, kv := range c03Hop {
 			if cs[dim] == "yes" {
 				q.hdr = append(q.hdr, kv)
@@ -260,6 +265,9 @@ func TestVerifC03(t *testing.T) {
 		}
 		if strings.Contains(cs["connection"], "X-Bar") {
 			forbidden = append(forbidden, "X-Bar")
+		}
+		if cs["connection-second-line"] != "no" {
+			forbidden = append(forbidden, "X-Baz")
 		}
 		for _, h := range forbidden {
 			if v, ok := s.hdr[h]; ok {
